@@ -416,11 +416,11 @@ def main():
     mkpath = os.path.join(repo, "Makefile")
     if os.path.exists(mkpath):
         mt = open(mkpath, encoding="utf-8", errors="replace").read()
-        mm3 = re.search(r"^MAX_MATCH_SET_LEN\s*\?=\s*(\d+)\s*$", mt, re.M)
+        mm3 = re.search(r"^MAX_MATCH_SET_LEN\s*[?:]?=\s*(\d+)\s*(?:#.*)?$", mt, re.M)
         if mm3:
             mk["default"] = int(mm3.group(1))
-        mk["to_c"] = 1 if re.search(r"-DMAX_MATCH_SET_LEN=\$\(MAX_MATCH_SET_LEN\)", mt) else 0
-        mk["to_go"] = 1 if re.search(r"-X\s+\S*common/consts\.MaxMatchSetLen_=\$\(MAX_MATCH_SET_LEN\)", mt) else 0
+        mk["to_c"] = 1 if re.search(r"-DMAX_MATCH_SET_LEN=\$[({]MAX_MATCH_SET_LEN[)}]", mt) else 0
+        mk["to_go"] = 1 if re.search(r"-X\s+\S*common/consts\.MaxMatchSetLen_=\$[({]MAX_MATCH_SET_LEN[)}]", mt) else 0
     out["override2048"] = ov
     out["makefile"] = mk
     # section of every SEC("…") function, from the source text (clang's JSON omits the attribute's string)
